@@ -48,6 +48,12 @@ POOL = [
     (recognize_number, ('1,234 and 12.5', 'en-us')),
     (recognize_number, ('1,234.56', 'fr-fr')),
     (recognize_number, ('1.234 et 12,5', 'fr-fr')),
+    # expressions whose parsing adjusts a looked-up time-of-day range (early / late): a range object shared through the cached
+    # configuration would drift, and plain time-of-day expressions would see it
+    (recognize_datetime, ('late this afternoon', 'en-us')),
+    (recognize_datetime, ('this afternoon', 'en-us')),
+    (recognize_datetime, ('early this evening', 'en-us')),
+    (recognize_datetime, ('monday evening', 'en-us')),
 ]
 CACHE = ModelFactory._ModelFactory__cache
 
